@@ -16,6 +16,6 @@ ctx = {"repo": repo, "repo_orig": repo, "facts": {"mir": os.path.join(fdir, "mir
 os.makedirs(ctx["scratch"], exist_ok=True)
 import importlib.machinery, importlib.util
 _l = importlib.machinery.SourceFileLoader("kvcheck", "/verif/check"); _s = importlib.util.spec_from_loader("kvcheck", _l); _m = importlib.util.module_from_spec(_s); _l.exec_module(_m)
-ctx["control_facts"] = _m.control_facts; ctx["extract_facts"] = _m.extract_facts
+ctx["synfacts_bin"] = _m.SYNFACTS_BIN; ctx["control_facts"] = _m.control_facts; ctx["extract_facts"] = _m.extract_facts
 mod = importlib.import_module("kv.props." + prop.lower())
 sys.exit(mod.check(ctx))
